@@ -319,7 +319,8 @@ class Project:
         """
         candidates: list[GlobalLicensingFound] = []
         dep5_path = root / ".reuse/dep5"
-        if (dep5_path).exists():
+        # (What is no file - a named pipe, say - cannot be read as one.)
+        if dep5_path.is_file():
             # Sneaky workaround to not print this warning.
             if not os.environ.get("_SUPPRESS_DEP5_WARNING"):
                 warnings.warn(
@@ -408,7 +409,9 @@ class Project:
             path = Path(path_str)
             # For some reason, LICENSES/** is resolved even though it
             # doesn't exist. I have no idea why. Deal with that here.
-            if not Path(path).exists() or Path(path).is_dir():
+            # Only a file holds a text: not a directory, and not a named pipe
+            # or a device either, reading which may never end.
+            if not Path(path).is_file():
                 continue
             if Path(path).suffix == ".license":
                 continue
